@@ -183,8 +183,6 @@ class Frame:
 
 
 class Obligation:
-    __slots__ = ("name", "kind", "assumptions", "goal", "info", "fn", "models")
-
     def __init__(self, name, kind, assumptions, goal, info, fn):
         self.name = name
         self.kind = kind
@@ -553,6 +551,9 @@ class Exec:
             v = self.guarded(guard, lambda e=e: self.ev(e, fr))     # short-circuit guard
             t = v if is_bool(v) else self.truth(v)
             terms.append(t)
+            st = simp(t)
+            if (is_and and z3.is_false(st)) or (not is_and and z3.is_true(st)):
+                break           # decided: later operands are not evaluated (as in Python)
         return simp(z3.And(*terms) if is_and else z3.Or(*terms))
 
     def ev_IfExp(self, node, fr):
@@ -919,6 +920,10 @@ class Exec:
             depth[0] -= 1
 
     def spec_call(self, fi, env, fr):
+        if fi.name in ("CP_E", "CP_D") and fi.module.name == "contracts.spec":
+            # the external codec tables (extracted from CPython and checked at start-up)
+            arg = self.as_int(list(env.values())[0])
+            return self.reg.E(arg) if fi.name == "CP_E" else self.reg.D(arg)
         sub = Frame(fi, fi.module, env, spec=True)
         v = self.spec_block(fi.body(), sub)
         if v is None:
@@ -1020,6 +1025,8 @@ class Exec:
             return simp(z3.Implies(self.truth(args[0]), self.truth(args[1])))
         if n == "cast":
             return args[1]
+        if n in ("ord", "chr"):
+            return self.as_int(args[0])      # str values are sequences of code points
         if n == "print":
             return NONE
         if n in ("str", "repr"):
